@@ -43,6 +43,12 @@ func vstubSleep(d int64) {}
 
 func vNewSession(rejected string) *Session {
 	s := &Session{policy: RoundRobinHostPolicy(), logger: vNopLogger{}, pool: &policyConnPool{}}
+	switch vBound("policy") {
+	case 1:
+		s.policy = DCAwareRoundRobinPolicy("dc-local")
+	case 2:
+		s.policy = RackAwareRoundRobinPolicy("dc-local", "rack-local")
+	}
 	if rejected != "" {
 		s.cfg.HostFilter = HostFilterFunc(func(h *HostInfo) bool { return h.HostID() != rejected })
 	}
@@ -63,13 +69,37 @@ func vReport(n int) []*HostInfo {
 		ad := vChoose("addr", len(vAddrs))
 		vAssume(!usedID[id] && !usedAddr[ad]) // a peer list names each node and each address once
 		usedID[id], usedAddr[ad] = true, true
-		out = append(out, &HostInfo{hostId: vIDs[id], connectAddress: vConnectAddr(ad), peer: vAddrs[ad], port: 9042, state: NodeUp})
+		dc, rack := vPlace(id)
+		out = append(out, &HostInfo{hostId: vIDs[id], connectAddress: vConnectAddr(ad), peer: vAddrs[ad], port: 9042, state: NodeUp, dataCenter: dc, rack: rack})
 	}
 	return out
 }
 
+// vPolicyHosts: every host the selection policy currently knows, whatever tier it files it under
 func vPolicyHosts(s *Session) []*HostInfo {
+	switch p := s.policy.(type) {
+	case *dcAwareRR:
+		return append(append([]*HostInfo(nil), p.localHosts.get()...), p.remoteHosts.get()...)
+	case *rackAwareRR:
+		var out []*HostInfo
+		for i := range p.hosts {
+			out = append(out, p.hosts[i].get()...)
+		}
+		return out
+	}
 	return s.policy.(*roundRobinHostPolicy).hosts.get()
+}
+
+// vPlace: datacenter and rack of a reported node (fixed per host id, so a node keeps them across reports):
+// u1 local rack, u2 local datacenter / other rack, u3 remote datacenter
+func vPlace(id int) (string, string) {
+	switch id {
+	case 0:
+		return "dc-local", "rack-local"
+	case 1:
+		return "dc-local", "rack-other"
+	}
+	return "dc-remote", "rack-x"
 }
 
 func vCheckRing(s *Session, reported []*HostInfo, rejected string, pre string) {
